@@ -43,7 +43,7 @@ func pathMatches(reported string, fault []string) bool {
 func checkC08(r *Run) {
 	n := r.n(14, 220)
 	r.Rule = "AM schemas with constraints at every depth (inside arrays, maps, optional fields, referenced and union-branch structs), 3 formats, Go types with validate + strict unmarshaller; per struct object: valid documents + single-fault documents (bound, length, unknown key, missing required, null for required, wrong JSON type) accepted/rejected by the reference validator as labelled. distinct_nontrivial = distinct (schema, object, document) triples executed"
-	c := buildCorpus(r, corpusOpts{N: n, Formats: []string{"jsonschema", "openapi", "cue"}, Profile: "constraints", Langs: []string{"go"}, DocsPerObj: r.n(5, 8), Faults: r.n(10, 24), Tag: "c08"})
+	c := buildCorpus(r, corpusOpts{N: n, Formats: []string{"jsonschema", "openapi", "cue"}, Profile: "constraints,defaults", Langs: []string{"go"}, DocsPerObj: r.n(5, 8), Faults: r.n(10, 24), Tag: "c08"})
 	defer c.cleanup()
 	if err := c.buildGoDriver(); err != nil {
 		r.Inconclusive("go driver: " + err.Error())
@@ -152,7 +152,12 @@ func checkC08(r *Run) {
 			}
 		case "unknown-key", "missing-required", "null-required", "wrong-type":
 			if f.Class == "missing-required" && faultFieldHasDefault(m.cs.AM, m.obj.T, f.Path) {
-				r.Count("missing_required_with_default(not judged)", 1)
+				// "lacks a required field that has no default": with a default the strict decoder must accept
+				r.Count("events.missing_required_with_default", 1)
+				if resp.StrictErr != "" && strings.Contains(resp.StrictErr, "missing") {
+					tag := stripDefaults(tagAtPath(m.cs.AM, m.obj.T, faultPathString(f.Path)))
+					r.Violation("strict-rejects-missing-required-with-default/"+m.cs.Format+"/"+tag, fmt.Sprintf("the strict decoder rejects %s although the missing required field %s has a default: %s", q.Doc, strings.Join(f.Path, "."), firstLine(resp.StrictErr)), replay)
+				}
 				continue
 			}
 			if resp.StrictErr == "" {
